@@ -27,7 +27,7 @@ type MockTier struct {
 
 // MockTiers per tier name.
 var MockTiers = map[string]MockTier{
-	"quick":    {NPkgs: 32, ConfigsPer: 3, Runs: 200000, MaxSeconds: 60, Seeds: 1},
+	"quick":    {NPkgs: 32, ConfigsPer: 3, Runs: 500000, MaxSeconds: 60, Seeds: 1},
 	"thorough": {NPkgs: 64, ConfigsPer: 12, Runs: 6000000, MaxSeconds: 900, Seeds: 3},
 }
 
